@@ -31,6 +31,7 @@ type C12Case struct {
 	Fault     *C12Fault `json:"fault,omitempty"`
 	SchedSeed uint64    `json:"sched_seed"`
 	Adv       []int64   `json:"adv,omitempty"` // clock advance before command i
+	PreemptP  float64   `json:"preempt_p,omitempty"`
 }
 
 type c12Sim struct{}
@@ -88,20 +89,31 @@ func (c12Sim) Gen(prop, tier string, r *rand.Rand) interface{} {
 			cm.Sort = chance(r, 0.5)
 		case 3, 4:
 			cm.Kind = "sum"
-			cm.Item = pick(r, "grp/it*", "grp/it0", "grp/*", "nomatch*", "grp/it1", "*")
+			cm.Item = pick(r, "grp/it*", "grp/it0", "grp/*", "nomatch*", "grp/it1", "*", "x*")
 			cm.Src = pick(r, "*.wsp", "a.wsp", "zz*.wsp", "[ab].wsp")
 		case 5, 6:
 			cm.Kind = "diff"
-			cm.Src = pick(r, "top.wsp", "grp/it0/a.wsp", "grp/it*/a.wsp", "grp/it0/*.wsp", "missing.wsp", "none*/x.wsp", "*.wsp")
+			cm.Src = pick(r, "top.wsp", "grp/it0/a.wsp", "grp/it*/a.wsp", "grp/it0/*.wsp", "missing.wsp", "none*/x.wsp", "*.wsp", "*/*.wsp", "x*/*.wsp")
+			if chance(r, 0.3) {
+				// both bases are the served tree: two requests overlap inside one command
+				cm.DstIsSrc = true
+				if !hasMeta(cm.Src) && chance(r, 0.7) {
+					// two different files of the served tree
+					cm.Dest = pick(r, "grp/it0/b.wsp", "grp/it1/a.wsp", "top.wsp", "grp/it1/c.wsp")
+				}
+			}
 		case 7, 8:
 			cm.Kind = "copy"
 			cm.Create = l
 			cm.CopyNaN = chance(r, 0.5)
-			cm.Src = pick(r, "top.wsp", "grp/it0/a.wsp", "grp/it*/a.wsp", "grp/it1/*.wsp", "missing.wsp", "none*/x.wsp")
+			cm.Src = pick(r, "top.wsp", "grp/it0/a.wsp", "grp/it*/a.wsp", "grp/it1/*.wsp", "missing.wsp", "none*/x.wsp", "x*/*.wsp")
 		}
 		genWindow(r, l, &cm)
 		c.Cmds = append(c.Cmds, cm)
 		c.Adv = append(c.Adv, pick(r, int64(0), 0, 1, l.Archs[0].S, between(r, 1, l.MaxRet())))
+	}
+	if chance(r, 0.4) {
+		c.PreemptP = pick(r, 0.005, 0.02, 0.05)
 	}
 	if chance(r, 0.25) {
 		c.Fault = &C12Fault{Cmd: r.IntN(ncmd), Kind: pick(r, "truncate", "close", "status", "garbage"), At: int(between(r, 0, 200))}
@@ -207,7 +219,11 @@ func (c12Sim) Run(e *Env, ci interface{}) {
 			return
 		}
 	}
-	r := newCliRunner(e, c.SchedSeed, 0, true)
+	if c.PreemptP < 0 || c.PreemptP > 0.5 {
+		e.Skip("invalid-case")
+		return
+	}
+	r := newCliRunner(e, c.SchedSeed, c.PreemptP, true)
 	defer r.close()
 	faultArmed := -1
 	if c.Fault != nil {
@@ -286,7 +302,14 @@ func (c12Sim) Run(e *Env, ci interface{}) {
 			argErr := !(cm.Archive == -1 || (cm.Archive >= 0 && cm.Archive < len(c.Layout.Archs))) || wf > wu
 			for _, rel := range rels {
 				_, e1 := os.Stat(filepath.Join(e.Dir, "src", rel))
-				_, e2 := os.Stat(filepath.Join(dstSave, rel))
+				drel := rel
+				if cm.Dest != "" && !hasMeta(cm.Src) {
+					drel = cm.Dest
+				}
+				_, e2 := os.Stat(filepath.Join(dstSave, drel))
+				if cm.DstIsSrc {
+					_, e2 = os.Stat(filepath.Join(e.Dir, "src", drel))
+				}
 				srcMissing, dstMissing := e1 != nil, e2 != nil
 				if cm.Kind == "diff" && ((argErr && (srcMissing || dstMissing)) || (srcMissing && dstMissing)) {
 					bothMissing = true
